@@ -118,13 +118,14 @@ Section Generic.
     end.
 
   (* the element loop.  `while match len { Len(n) => count < n, Indefinite => true }`:
-     EOF => error (cbor_type fails); a break ends the loop for BOTH length forms; any other special:
-     error or assert-panic.  [acc] = elements read so far, in wire order, repeats included *)
+     EOF => error (cbor_type fails); a break ends an indefinite-length array and is an error (BreakInDefiniteLen) inside a
+     definite-length one (since /repo ec1af1f; before, it silently ended both forms); any other special:
+     error (or assert-panic, see [break_asserts]).  [acc] = elements read so far, in wire order, repeats included *)
   Fixpoint read_items (k : kind_cfg) (len : flen) (its : list item) (brk : bool) (acc : list A) : result (list A) :=
     let continue_ := match len with Definite n => negb (n =? 0) | Indefinite => true end in
     if negb continue_ then Ok acc else
     match its with
-    | [] => if brk then Ok acc else Err
+    | [] => if brk then (match len with Indefinite => Ok acc | Definite _ => Err end) else Err
     | IElem a :: r => read_items k (match len with Definite n => Definite (n - 1) | Indefinite => Indefinite end) r brk (acc ++ [a])
     | IBad :: _ => Err
     | INull :: _ => if break_asserts k then Panic else Err
